@@ -16,6 +16,7 @@ Static clause claimed (the one law-breaking mechanism that is structural):
   I-POINTWISE  + and - merge the right operand's entries with that very operator and operand order, unary - negates every
             amount (in-place merge loop, shared helper taking the operator as a closure, or a - b = a + (-b))
   I-ACCESSOR  AssetClass::policy() / name() return, variant by variant, the field the class holds (E16; or-patterns per variant)
+  KIND        sums / negations of asset values in the reducer never yield the absent operand None (shared with C01)
   (equality)  a hand-written PartialEq must not walk the two hash maps side by side (iteration order differs per map)
 A shape outside the recognised ones is listed as "not decided", never reported.
 Not decided: associativity / commutativity as identities over arbitrary maps (entry-wise + on i128, modulo the overflow that is
